@@ -6,6 +6,7 @@ import (
 	"fmt"
 	"go/constant"
 	"go/types"
+	"sort"
 	"strconv"
 	"strings"
 
@@ -1075,24 +1076,51 @@ func (g *Gen) evalCall(n *Node, env *Env) (Term, error) {
 		}
 		return Term{}, fmt.Errorf("rangepos: no string range iterator in scope")
 	case "seen":
-		// seen(k): key k already visited by the (single) map range iterator in scope
+		// seen(k): key k already visited by the map range iterator in scope; seen(k, n): by the n-th map range
+		// iterator of the function (1-based, in the order the range statements appear in the SSA value numbering) -
+		// required when the function ranges over more than one map
 		k, err := arg(0)
 		if err != nil {
 			return Term{}, err
 		}
+		its := map[string]string{}
 		for n, s := range g.svSort {
 			if strings.HasPrefix(n, "$it_") && strings.HasPrefix(s, "(Array") {
-				return Term{S: fmt.Sprintf("(select %s %s)", g.svIn(env.st, n, s), k.S), Sort: "Bool"}, nil
+				its[n] = s
 			}
 		}
 		if g.pass1 != nil {
 			for n, s := range g.pass1.svSort {
 				if strings.HasPrefix(n, "$it_") && strings.HasPrefix(s, "(Array") {
-					return Term{S: fmt.Sprintf("(select %s %s)", g.svIn(env.st, n, s), k.S), Sort: "Bool"}, nil
+					its[n] = s
 				}
 			}
 		}
-		return Term{}, fmt.Errorf("seen: no map iterator in scope")
+		var names []string
+		for n := range its {
+			names = append(names, n)
+		}
+		sort.Slice(names, func(i, j int) bool {
+			if len(names[i]) != len(names[j]) {
+				return len(names[i]) < len(names[j])
+			}
+			return names[i] < names[j]
+		})
+		if len(names) == 0 {
+			return Term{}, fmt.Errorf("seen: no map iterator in scope")
+		}
+		pick := 0
+		if len(args) > 1 {
+			nv, err2 := strconv.Atoi(strings.TrimSpace(args[1].Val))
+			if err2 != nil || nv < 1 || nv > len(names) {
+				return Term{}, fmt.Errorf("seen(k, n): n must be a literal in 1..%d", len(names))
+			}
+			pick = nv - 1
+		} else if len(names) > 1 {
+			return Term{}, fmt.Errorf("seen(k): %d map range iterators in this function, write seen(k, n)", len(names))
+		}
+		n := names[pick]
+		return Term{S: fmt.Sprintf("(select %s %s)", g.svIn(env.st, n, its[n]), k.S), Sort: "Bool"}, nil
 	case "indom":
 		// indom(m, k): key k present in Go map m
 		m, err := arg(0)
